@@ -117,6 +117,17 @@ FlushAllEmpties == [][last' # NoCmd /\ OpOf(last') = "FLUSHALL" /\ reply'.t = "o
 FlushDbOnlyOwn  == [][last' # NoCmd /\ OpOf(last') = "FLUSHDB" /\ reply'.t = "ok" =>
                         store' = DropDb(store, db)]_vars
 
+\* C19  the accounted size is a function of the dataset: zero when empty, a sum over the entries,
+\*      and a command moves it only by the entries it changes
+MemZeroEmpty == (DOMAIN store = {}) => MemOf(store) = 0
+MemAdditive  == \A x \in DOMAIN store : MemOf(store) = MemOf([y \in (DOMAIN store) \ {x} |-> store[y]]) + EntryMem(store, x)
+MemFrame     == [][MemOf(store') - MemOf(store) =
+                     LET ch == {x \in (DOMAIN store) \cup (DOMAIN store') :
+                                  ~(x \in DOMAIN store /\ x \in DOMAIN store' /\ store'[x].v = store[x].v)}
+                         f(x) == (IF x \in DOMAIN store' THEN EntryMem(store', x) ELSE 0)
+                                 - (IF x \in DOMAIN store THEN EntryMem(store, x) ELSE 0)
+                     IN SumSet(f, ch)]_vars
+
 \* sanity of the state space itself
 TypeOK ==
     /\ \A x \in DOMAIN store : x[1] \in DBs /\ Modellable(store[x].v) /\ (store[x].d = NoD \/ store[x].d >= 0)
